@@ -119,6 +119,8 @@ impl ZoneStore {
         // Check persistent store
         if let Some(packet) = self.store.get(pubkey).await? {
             trace!(packet_timestamp = ?packet.timestamp(), "store hit");
+            #[cfg(iroh_verif)]
+            iroh_base::verif::apoint("zone_store.resolve.after_store_get").await;
             let mut cache = self.cache.lock().await;
             let result = cache.insert_and_resolve(&packet, name, record_type);
             return match result {
@@ -181,6 +183,8 @@ impl ZoneStore {
     ) -> Result<bool> {
         let pubkey = PublicKeyBytes::from_signed_packet(&signed_packet);
         if self.store.upsert(signed_packet).await? {
+            #[cfg(iroh_verif)]
+            iroh_base::verif::apoint("zone_store.insert.after_upsert").await;
             self.metrics.pkarr_publish_update.inc();
             self.cache.lock().await.remove(&pubkey);
             Ok(true)
@@ -190,6 +194,34 @@ impl ZoneStore {
         }
     }
 }
+
+/// Verification entry points (cfg(iroh_verif) only).
+#[cfg(iroh_verif)]
+impl ZoneStore {
+    /// A zone store over a caller-supplied redb storage backend, with the store actor and evict
+    /// task running as local tasks and a configurable zone-cache capacity.
+    pub(crate) fn verif_new(
+        backend: impl redb::StorageBackend,
+        options: Options,
+        cache_capacity: usize,
+    ) -> Result<Self> {
+        let metrics: Arc<Metrics> = Default::default();
+        let db = redb::Database::builder()
+            .create_with_backend(backend)
+            .anyerr()?;
+        let store = SignedPacketStore::verif_open(db, options, metrics.clone())?;
+        let zone_cache = ZoneCache::new(cache_capacity.max(1), metrics.clone());
+        Ok(Self {
+            store: Arc::new(store),
+            cache: Arc::new(Mutex::new(zone_cache)),
+            dht: None,
+            metrics,
+        })
+    }
+}
+
+#[cfg(iroh_verif)]
+pub(crate) use signed_packets::verif_dump;
 
 /// Convert a mainline [`MutableItem`] to a [`SignedPacket`].
 fn mutable_item_to_signed_packet(
